@@ -24,10 +24,10 @@ out.append("Independent sub-agents were given only the text of one property and 
            "change that breaks the property while compiling and passing the 95 existing tests, with a demonstration test. "
            "Each change was confirmed in a scratch worktree (existing suite passes with it; demonstration fails with it and "
            "passes without it) and then run against the checks (`lib/seed.py`; patch, demonstration and meta.json are under "
-           "`/verif/seeded/<name>/`). The last column is the result of the *current* quick checks with the change applied to "
-           "/repo (`git -C /repo apply`, `./check`, `git -C /repo checkout -- .`) for rounds 1 and 2, and on an isolated "
-           "scratch worktree plus a copy of /verif built against it (`lib/seed_iso.py`) for rounds 3 and 4 (the -agent2 entries of "
-           "C03, C05, C07, C08, C10, C14, C16, C18 and all -agent3 entries).\n")
+           "`/verif/seeded/<name>/`). The last column is the result of the *current* quick checks with the change applied: every "
+           "change was first run against /repo itself (`git -C /repo apply`, `./check`, `git -C /repo checkout -- .`; rounds 1-2) "
+           "or against a scratch worktree with a copy of /verif built against it (`lib/seed_iso.py`; rounds 3-5), and at the end "
+           "of round 5 all 60 were re-run in isolated copies against the final checks.\n")
 out.append("| seeded change | property | what it does | what it needs to manifest | quick checks |")
 out.append("|---|---|---|---|---|")
 out += rows
